@@ -204,6 +204,44 @@ func GenDataset(r *Rng, w Window, lookback int64, maxSeries int, hostile, withHi
 		}
 		d.Series = append(d.Series, Series{Labels: ls, Samples: GenSamples(r, w, lookback, hostile)})
 	}
+	if n > 0 && r.P(0.1) {
+		// twins: the same labels under two metric names. With a hand-over inside the window the two
+		// never have a sample at the same step (legal after the name is dropped, one output series);
+		// overlapping, they are a duplicate label set wherever the name is dropped.
+		si := r.Intn(n)
+		src := d.Series[si]
+		if name, ok := src.Labels["__name__"]; ok {
+			ls := map[string]string{}
+			for k, v := range src.Labels {
+				ls[k] = v
+			}
+			for _, m := range metricNames {
+				if m != name {
+					ls["__name__"] = m
+					break
+				}
+			}
+			tw := Series{Labels: ls}
+			if r.P(0.7) && len(src.Samples) > 1 {
+				cut := w.StartMs + r.Int63n(w.EndMs-w.StartMs+1)
+				var keep []Sample
+				for _, sm := range src.Samples {
+					if sm.T < cut {
+						keep = append(keep, sm)
+					} else {
+						tw.Samples = append(tw.Samples, Sample{T: sm.T, V: sm.V + 1})
+					}
+				}
+				if r.P(0.5) && len(keep) > 0 {
+					keep = append(keep, Sample{T: keep[len(keep)-1].T + 1, V: StaleNaN})
+				}
+				d.Series[si].Samples = keep
+			} else {
+				tw.Samples = GenSamples(r, w, lookback, hostile)
+			}
+			d.Series = append(d.Series, tw)
+		}
+	}
 	if withHist {
 		groups := 1 + r.Intn(2)
 		for g := 0; g < groups; g++ {
@@ -545,7 +583,9 @@ func (q *qgen) kparam(d int) string {
 		return q.scalar(d)
 	}
 	if g.Hostile && g.on("param:hostile") && r.P(0.35) {
-		return Pick(r, []string{"0", "-1", "NaN", "Inf", "-Inf", "1e19", "0.5", "1.9", "100"})
+		return Pick(r, []string{"0", "-1", "NaN", "Inf", "-Inf", "1e19", "0.5", "1.9", "100",
+			// the edges of the int64 range: 2^63 is the smallest k that overflows, 2^63-1024 the largest that does not
+			"9223372036854775808", "9223372036854774784", "-9223372036854775808", "-9223372036854777856", "2 ^ 63"})
 	}
 	return Pick(r, []string{"1", "1", "2", "3", "5", "40"})
 }
@@ -717,7 +757,32 @@ func (q *qgen) scalar(d int) string {
 }
 
 // GenQuery produces one query string for the configured focus.
+func leadingIdent(s string) string {
+	i := 0
+	for i < len(s) && (s[i] == '_' || s[i] == ':' || s[i] >= 'a' && s[i] <= 'z' || s[i] >= 'A' && s[i] <= 'Z' || i > 0 && s[i] >= '0' && s[i] <= '9') {
+		i++
+	}
+	return s[:i]
+}
+
+var reMetricUse = regexp.MustCompile(`\b(m[01]|h_bucket)\b`)
+
+// GenQuery generates a query; a twelfth of the vector-typed ones additionally select the metric of
+// one of their selectors a second time without matchers, which makes the default optimizers merge
+// the selects (the narrower ones become in-engine filters over the broader one's series).
 func GenQuery(r *Rng, g *GenCfg) string {
+	out := genQuery(r, g)
+	if !g.on("repeat-metric") || !r.P(0.08) {
+		return out
+	}
+	name := reMetricUse.FindString(out)
+	if t, err := ExprType(out); err != nil || string(t) != "vector" || name == "" {
+		return out
+	}
+	return "(" + out + ") + on() group_left() 0 * count(" + name + ")"
+}
+
+func genQuery(r *Rng, g *GenCfg) string {
 	q := &qgen{r: r, g: g}
 	d := g.MaxDepth
 	if d == 0 {
@@ -729,6 +794,16 @@ func GenQuery(r *Rng, g *GenCfg) string {
 	switch g.Focus {
 	case "selector":
 		s := q.selector()
+		if r.P(0.12) {
+			// the same metric selected twice: the default optimizers merge the two selects and
+			// evaluate the narrower one as a filter over the broader one's series
+			if name := leadingIdent(s); name != "" {
+				if r.P(0.5) {
+					return s + " + 0 * " + name
+				}
+				return name + " * 0 + " + s
+			}
+		}
 		switch r.Intn(6) {
 		case 0:
 			return "(" + s + ")"
